@@ -6,6 +6,7 @@ import (
 	"fmt"
 	"go/token"
 	"go/types"
+	"io"
 	"os"
 	"os/exec"
 	"path/filepath"
@@ -98,7 +99,12 @@ func NewInterp(p *Program, solverKind string, timeoutMs int) (*Interp, error) {
 		satCache:     map[*Term]*bitset{},
 		useDomains:   os.Getenv("SYMGO_NODOM") == "",
 	}
-	s, err := NewSolver(solverKind, timeoutMs, nil)
+	var logw io.Writer
+	if lp := os.Getenv("SYMGO_SMTLOG"); lp != "" {
+		f, _ := os.OpenFile(lp, os.O_CREATE|os.O_WRONLY|os.O_APPEND, 0o644)
+		logw = f
+	}
+	s, err := NewSolver(solverKind, timeoutMs, logw)
 	if err != nil {
 		return nil, err
 	}
